@@ -32,6 +32,8 @@ def width(f):
         return {"Bit": 1, "Nibble": 4, "Octet": 8}[f[1]]
     if k == "bytewise":
         return 8 * f[1]
+    if k == "zero":
+        return 0
     if k == "array":
         return f[1] * f[2]
     return sum(width(x) for x in f[1])
@@ -77,6 +79,8 @@ def model_build(fields, values):
             # Bytewise(BytesInteger(n, signed, swapped)): the island holds the integer's bytes in stream order
             b = (v & ((1 << w) - 1)).to_bytes(f[1], "little" if f[3] else "big")
             p = int.from_bytes(b, "big")
+        elif k == "zero":
+            p = 0
         elif k == "array":
             p = 0
             for e in v:
@@ -107,6 +111,8 @@ def model_parse(fields, acc, n):
         elif k == "bytewise":
             b = u.to_bytes(f[1], "big")
             out.append(int.from_bytes(b, "little" if f[3] else "big", signed=f[2]))
+        elif k == "zero":
+            out.append({"bytes": b"", "array": [], "struct": {}}[f[1]])
         elif k == "array":
             vals = []
             for i in range(f[1]):
@@ -144,6 +150,10 @@ def make(fields, streaming, counter=None, params=None):
             subs.append(name / getattr(C, f[1]))
         elif k == "bytewise":
             subs.append(name / C.Bytewise(C.BytesInteger(wexpr(f[1]), signed=f[2], swapped=f[3])))
+        elif k == "zero":
+            # a byte-level island of no bytes at all: it must take nothing from the bit stream and give nothing to it
+            inner0 = {"bytes": C.Bytes(0), "array": C.Array(0, C.Byte), "struct": C.Struct()}[f[1]]
+            subs.append(name / C.Bytewise(inner0))
         elif k == "array":
             subs.append(name / C.Array(f[1], C.BitsInteger(wexpr(f[2]), signed=f[3])))
         else:
@@ -361,7 +371,10 @@ def layouts(draw, depth=1):
     n = draw(st.integers(1, 6))
     fields = []
     for _ in range(n):
-        k = draw(st.sampled_from(["bits", "bits", "bits", "bits", "flag", "pad", "alias", "bytewise", "array"] + (["struct"] if depth > 0 else [])))
+        k = draw(st.sampled_from(["bits", "bits", "bits", "bits", "flag", "pad", "alias", "bytewise", "array", "zero"] + (["struct"] if depth > 0 else [])))
+        if k == "zero":
+            fields.append(["zero", draw(st.sampled_from(["bytes", "array", "struct"]))])
+            continue
         if k == "bits":
             w = draw(st.one_of(st.integers(1, 24), st.sampled_from([8, 16, 24, 32, 7, 9, 15, 17])))
             fields.append(["bits", w, draw(st.booleans()), draw(st.booleans()) if w % 8 == 0 else False])
@@ -403,6 +416,8 @@ def gen_vals(draw, fields):
             out.append(_int(draw, width(f), False))
         elif k == "bytewise":
             out.append(_int(draw, 8 * f[1], f[2]))
+        elif k == "zero":
+            out.append({"bytes": b"", "array": [], "struct": {}}[f[1]])
         elif k == "array":
             out.append([_int(draw, f[2], f[3]) for _ in range(f[1])])
         else:
